@@ -241,6 +241,7 @@ func makeService(sp *ServicePlan, sch *Schema, h http.Handler, opts []vanguard.S
 
 // Run executes a plan. It never panics on SUT misbehaviour; everything is recorded in the result.
 func Run(plan *Plan) *RunResult {
+	plan.normalize()
 	res := &RunResult{Plan: plan}
 	stepCap := plan.StepCap
 	if stepCap == 0 {
@@ -331,6 +332,7 @@ func Run(plan *Plan) *RunResult {
 
 // prepareRPC renders the client's request and builds the *http.Request the way a Go server would.
 func prepareRPC(st *rpcState, cfg *ConfigPlan) {
+	st.plan.normalize()
 	cp := &st.plan.Client
 	var svc *ServicePlan
 	for i := range cfg.Services {
